@@ -5,15 +5,15 @@ props=[json.loads(l)['id'] for l in open('/verif/properties.jsonl')]
 C={}
 def add(pid,cat,text,note,tech,ref=None):
     C[pid]=dict(cat=cat,text=text,note=note,tech=tech,ref=ref or f"DESIGN.md section 3/{pid}")
-add('C01','exploration',"Real ceremonies (real nodes, real airgapped machines) for every (n,t) up to n=5 (7 in thorough) under seeded random schedules and signer subsets; every signature value found in broadcasts, stores and exports is judged by the independent prysm/blst verifier against the harness-expanded payload and compared byte-for-byte per payload. Sampling of an infinite space: held on the executions produced.","prysm/blst as verifier; in-memory board; scrypt cost lowered","runtime monitoring: independent BLS verification of every observed signature over randomized full ceremonies")
+add('C01','exploration',"Real ceremonies (real nodes, real airgapped machines) for every (n,t) up to n=5 (7 in thorough) under seeded random schedules and signer subsets, incl. a batch whose t-th answer was damaged; half of the ceremonies are driven through the REST API and one in six through the dc4bc_cli binary (child processes; export_signatures dumps judged); every signature value found in broadcasts, stores and exports is judged by the independent prysm/blst verifier against the harness-expanded payload and compared byte-for-byte per payload. Sampling of an infinite space: held on the executions produced.","prysm/blst as verifier; in-memory board; scrypt cost lowered","runtime monitoring: independent BLS verification of every observed signature over randomized full ceremonies")
 add('C02','exploration',"Full key generations for all (n,t), n<=5, under random schedules plus the deviating-announcement history family (different polynomial / no polynomial / different key, first/middle/last); judged by group arithmetic on public values, machine keyrings and prysm.","kyber group arithmetic for public values; machines' keyrings read with the harness-known password","runtime monitoring: invariant oracle over machine keyrings, hot-node dumps and announcements at quiescence")
-add('C03','exploration',"API-built and hand-built mixed proposals (explicit payloads incl. >64 KiB and hostile bytes, baked ranges incl. boundaries and empty ranges); each partial signature is verified under the participant's share public key over an independent expansion of the proposal; stores, broadcasts and exports compared with that expansion.","independent expansion = pinned list + independent SSZ; prysm for partial signatures","runtime monitoring: differential check of signed/stored/exported bytes against an independent expansion")
-add('C05','exploration',"Breadth-first exploration of the real ProcessMessage over the full public event alphabet x participant ids x payload variants to a fixpoint of the abstract state space, exhaustive within the bound n<=3 (quick) / n<=4 (thorough), all t; four history monitors decide every transition.","MemState for LevelDB; one node's point of view; harness-signed traffic","runtime monitoring: history monitors over an exhaustive bounded exploration of the real node")
-add('C06','exploration',"Exhaustive exploration (n<=3 quick, n<=4 thorough, 2-3 batches) of the signing protocol on a node with a real finished key generation and real partial signatures; a per-batch contribution counter decides reconstruction/cancellation instants; thorough adds random walks for n=5..7.","MemState for LevelDB; node 0's point of view","runtime monitoring: counter monitor over exhaustive bounded exploration + random walks")
-add('C09','exploration',"Every (genuine message, consuming node) pair of three kinds of reference ceremonies is attacked, in the exact consuming state, with ~30 forgeries directly and wrapped inside an unauthenticated reinit message; oracle = error returned and byte-identical durable state.","MemState for LevelDB; opening proposal and reinit message exempt by the property","runtime monitoring: differential durable-state oracle over systematic message forgeries")
-add('C10','exploration',"Two concurrent rounds; for every (genuine message, consuming node) pair: impersonation by every other participant (same payload and the phase's failure event), the other round's counterpart re-posted under this round, and the message re-posted under every other event name. Open known findings: cross-round / confirm->decline replays (signature covers payload bytes only).","MemState for LevelDB","runtime monitoring: per-participant projection oracle over systematic impersonation and replay")
-add('C17','exploration',"All 18,632 baked positions are enumerated exhaustively on every run and compared with an independent SSZ implementation and an independent reader of the pinned list; random/boundary validator indices sampled; out-of-range positions tried.","pinned copy of the published list; Go's SHA-256","runtime monitoring: exhaustive differential testing against an independent SSZ reference")
-add('C19','exploration',"state_machines driven directly: for every reachable state and event, live continuation vs dump+restore compared (acceptance, state, response, dump); plus restore + round listing over every state the C05/C06 node-level explorations reach. Exhaustive within n<=3 (quick) / n<=4 (thorough).","hand-over states excluded from the live comparison (the node always restores there)","runtime monitoring: paired (live vs restored) differential execution over exhaustive bounded exploration")
+add('C03','exploration',"API-built and hand-built mixed proposals (explicit payloads incl. zero bytes, >64 KiB and hostile bytes, identifiers with Unicode whitespace / control characters, baked ranges incl. boundaries and empty ranges); each partial signature is verified under the participant's share public key over an independent expansion of the proposal; stores, broadcasts and exports compared with that expansion.","independent expansion = pinned list + independent SSZ; prysm for partial signatures","runtime monitoring: differential check of signed/stored/exported bytes against an independent expansion")
+add('C05','exploration',"Breadth-first exploration of the real ProcessMessage over the full public event alphabet x participant ids x payload variants to a fixpoint of the abstract state space, exhaustive within the bound n<=3 (quick) / n<=4 (thorough), all t; five history monitors decide every transition (M5: a timely failure report by an awaited participant is not refused).","MemState for LevelDB; one node's point of view; harness-signed traffic","runtime monitoring: history monitors over an exhaustive bounded exploration of the real node")
+add('C06','exploration',"Exhaustive exploration (n<=3 quick, n<=4 thorough, 2-3 batches) of the signing protocol on a node with a real finished key generation and real partial signatures (plus answers without any share, wrong shares, error reports); a per-batch contribution counter decides reconstruction/cancellation instants; thorough adds random walks for n=5..7.","MemState for LevelDB; node 0's point of view","runtime monitoring: counter monitor over exhaustive bounded exploration + random walks")
+add('C09','exploration',"Every (genuine message, consuming node) pair of three kinds of reference ceremonies is attacked, in the exact consuming state, with ~35 forgeries (incl. re-addressed to unknown round ids) directly, after reinit traffic, wrapped inside an unauthenticated reinit message for a fresh round and inside one aimed at the existing round; oracle = error returned and byte-identical durable state.","MemState for LevelDB; opening proposal and reinit message exempt by the property","runtime monitoring: differential durable-state oracle over systematic message forgeries")
+add('C10','exploration',"Two concurrent rounds; for every (genuine message, consuming node) pair: impersonation by every other participant (same payload and the phase's failure event), the other round's counterpart re-posted under this round, the message re-posted under every other event name (also in every later state of the round), and genuine messages / forged opening proposals under lookalike round ids. Open known findings: cross-round / confirm->decline replays (signature covers payload bytes only).","MemState for LevelDB","runtime monitoring: per-participant projection oracle over systematic impersonation and replay")
+add('C17','exploration',"All 18,632 baked positions are enumerated exhaustively on every run and compared with an independent SSZ implementation and an independent reader of the pinned list; random/boundary validator indices sampled; out-of-range positions tried, also as windows offered through POST /proposeSignBakedMessages and dc4bc_cli sign_baked (bounds +-2^32, 2^62, negative).","pinned copy of the published list; Go's SHA-256","runtime monitoring: exhaustive differential testing against an independent SSZ reference")
+add('C19','exploration',"state_machines driven directly: for every reachable state and event, live continuation vs dump+restore compared (acceptance, state, response, dump); plus restore + round listing over every state the C05/C06 node-level explorations reach, incl. what GET /getFSMDump and /getFSMList serve. Exhaustive within n<=3 (quick) / n<=4 (thorough).","hand-over states excluded from the live comparison (the node always restores there)","runtime monitoring: paired (live vs restored) differential execution over exhaustive bounded exploration")
 import os
 extra='/verif/tools/manifest_extra.json'
 if os.path.exists(extra):
